@@ -191,6 +191,18 @@ impl<'tcx> Ex<'tcx> {
             let kind = tcx.def_kind(did);
             match kind {
                 DefKind::Fn | DefKind::AssocFn | DefKind::Closure => {}
+                DefKind::Const { .. } | DefKind::Static { .. } | DefKind::AssocConst { .. } | DefKind::InlineConst => {
+                    // constant items: their literal tables (e.g. lists of accepted codes) are facts too
+                    if !tcx.is_trivial_const(did) {
+                        let body = tcx.mir_for_ctfe(did);
+                        fns.push(self.body(ld, body, "const", None));
+                        let proms = tcx.promoted_mir(did);
+                        for (pi, pb) in proms.iter_enumerated() {
+                            fns.push(self.body(ld, pb, "promoted", Some(pi.as_usize())));
+                        }
+                    }
+                    continue;
+                }
                 _ => continue,
             }
             if tcx.is_coroutine(did) {
@@ -282,6 +294,7 @@ impl<'tcx> Ex<'tcx> {
                 if tcx.is_coroutine(did) { "coroutine" } else { "closure" }
             }
             DefKind::AssocFn => "method",
+            DefKind::Const { .. } | DefKind::Static { .. } | DefKind::AssocConst { .. } | DefKind::InlineConst => "const",
             _ => "fn",
         };
         let mut id = self.path(did);
